@@ -222,6 +222,9 @@ func (g *Gen) next() *Op {
 		dts := []int64{0, int64(5 * time.Second), int64(5 * time.Second), int64(r.cfg.Arb + r.cfg.Compl), int64(time.Second)}
 		return &Op{Kind: "endblock", Dt: dts[rng.Intn(len(dts))]}
 	}
+	if g.chance(0.04) {
+		return &Op{Kind: "query"}
+	}
 	x := rng.Intn(100)
 	switch {
 	case x < 6 || len(s.Defs) == 0:
